@@ -102,6 +102,12 @@ def inputs_for(tier: str, rng) -> list[tuple[bytes, int]]:
              b"http://u:p@[::1]:1/", b"ftp://1.2.3.4:65536/x", b"http://example.com:66000/", b"\\\\[::1]\\share\\a.exe", b"\\\\?\\UNC\\\\\\x.exe",
              b"\\\\.\\UNC\\", b"\\\\?\\UNC\\a", b"x:\\..\\..\\..\\a.b", b"http://999.999.999.999/", b"http://0x100000000/", b"http://1.2.3.4.5/", b"://", b"http://%zz/",
              b"user@" * 50 + b"example.com", b"a." * 200 + b"com", b"http://" + b"a" * 300 + b".com/", b"1." * 100 + b"1"]
+    # IPv4-shaped tokens: every combination of octet spellings (decimal, zero-padded incl. 08 / 09, octal-looking, hex, out of range)
+    octs = [b"1", b"08", b"09", b"010", b"0x1f", b"256", b"0", b"00", b"0x", b"255", b"0377", b"0x100"]
+    for t in itertools.product(octs, repeat=4) if big else [tuple(rng.choice(octs) for _ in range(4)) for _ in range(2500)]:
+        data.append(rng.choice([b"", b"ip ", b"http://"]) + b".".join(t) + rng.choice([b"", b"/x", b" "]))
+    for o in octs:
+        data += [b"10.0.0." + o, b"192.168." + o + b".1", o + b".1.1.1", b"\\\\10.0." + o + b".1\\share\\a.exe"]
     data += pe_grid(rng, tier)
     # unbalanced quotes / parentheses for the string decoders
     qs = [b'"', b"'", b"`", b"\\", b"+", b"&", b" ", b"a", b".replace(", b"reverse(", b")", b",", b"/", b"-replace", b"unescape('", b"createobject("]
@@ -119,6 +125,10 @@ def inputs_for(tier: str, rng) -> list[tuple[bytes, int]]:
     for _ in range(300 if not big else 5000):
         data.append(bytes(rng.randrange(256) for _ in range(rng.choice([1, 7, 64, 300, 1500]))))
     data += list(drivers.nested(rng, 100 if not big else 2000, 6))
+    for n in range(40):
+        tail = rng.choice([b"GetProcAddress", b"VirtualAlloc", b"Invoke-Expression", b"kernel32.dll"])
+        data.append(bytes(rng.choice(b"xyz ;") for _ in range(rng.choice([60, 120, 250]))) + b" " + tail)
+        data.append(bytes(rng.choice(b"xyz ;") for _ in range(rng.choice([20, 40, 60, 120]))))
     out = []
     for i, d in enumerate(data):
         k = 10 if i % 3 else DEPTHS[(i // 3) % len(DEPTHS)]
@@ -179,10 +189,17 @@ def _worker(conn, chunk, hang_s):
 
     full = Multidecoder()
     light = Multidecoder(get_analyzers())
+    import gc
+
     for i, (d, k) in chunk:
         conn.send(("start", i))
         md = full if i % 5 == 0 else light
-        conn.send(("done", i, session(md, d, k, hang_s)))
+        fresh = bytes(bytearray(d))          # a new buffer per session, released afterwards: addresses get re-used,
+        ev = session(md, fresh, k, hang_s)   # as they do in a long-running service (anything keyed on id() would show)
+        del fresh
+        if i % 50 == 0:
+            gc.collect()
+        conn.send(("done", i, ev))
     conn.send(("end",))
     conn.close()
 
